@@ -8,6 +8,7 @@ import (
 	"fmt"
 	"io"
 	"strings"
+	"sync"
 	"time"
 
 	"gosrc.io/xmpp/stanza"
@@ -30,11 +31,16 @@ type WebsocketTransport struct {
 
 	closeCtx  context.Context
 	closeFunc context.CancelFunc
+	// cleanupOnce makes the teardown of a connection happen once. Close has a value receiver: the nil
+	// markers cleanup sets are lost with the copy, and a second Close (the keepalive answering a ping that
+	// failed because the session was just closed) closed the queue channel again: a panic.
+	cleanupOnce *sync.Once
 }
 
 func (t *WebsocketTransport) Connect() (string, error) {
 	t.queue = make(chan []byte, 256)
 	t.closeCtx, t.closeFunc = context.WithCancel(context.Background())
+	t.cleanupOnce = new(sync.Once)
 
 	var ctx context.Context
 	ctx = context.Background()
@@ -166,19 +172,25 @@ func (t *WebsocketTransport) LogTraffic(logFile io.Writer) {
 
 func (t *WebsocketTransport) cleanup(code websocket.StatusCode) error {
 	var err error
-	if t.queue != nil {
-		close(t.queue)
-		t.queue = nil
+	once := t.cleanupOnce
+	if once == nil {
+		once = new(sync.Once)
 	}
-	if t.wsConn != nil {
-		err = t.wsConn.Close(websocket.StatusGoingAway, "Done")
-		t.wsConn = nil
-	}
-	if t.closeFunc != nil {
-		t.closeFunc()
-		t.closeFunc = nil
-		t.closeCtx = nil
-	}
+	once.Do(func() {
+		if t.queue != nil {
+			close(t.queue)
+			t.queue = nil
+		}
+		if t.wsConn != nil {
+			err = t.wsConn.Close(websocket.StatusGoingAway, "Done")
+			t.wsConn = nil
+		}
+		if t.closeFunc != nil {
+			t.closeFunc()
+			t.closeFunc = nil
+			t.closeCtx = nil
+		}
+	})
 	return err
 }
 
